@@ -189,6 +189,15 @@ def family : Family where
       let K : Content := ⟨hexOrBad d, parseStrings s, parsePointers p, parseLabels l⟩
       let cstr := parseCStrings cs
       ((), modelSer (endianOf e) K cstr, oracleSer (endianOf e) K cstr i)
+    | [_, "serp", e, d, s, p, l, cs] =>
+      let K : Content := ⟨hexOrBad d, parseStrings s, parsePointers p, parseLabels l⟩
+      let cstr := parseCStrings cs
+      let o := oracleSer (endianOf e) K cstr i
+      ((), modelSer (endianOf e) K cstr ++ " procs=1",
+        if o != "ok" then o
+        else if fieldOf i "procs" != some "1" then
+          "FAIL serialization differs between fresh processes (per-process hash seeds)"
+        else "ok")
     | [_, "img", e, img, d, s, p, l] =>
       let K : Content := ⟨hexOrBad d, parseStrings s, parsePointers p, parseLabels l⟩
       let img := hexOrBad img
